@@ -8,7 +8,7 @@ e2e:    three class groups with logging constructors; six solver-chosen link bit
 """
 import itertools
 
-from ..ch import S, Fail, absorb, native, run_jobs
+from ..ch import S, Fail, absorb, native, run_jobs, untraced
 from ..common import run_native
 
 FUNCTIONS = [
@@ -329,27 +329,35 @@ def _nested_once(decl, bits, nested_pos, src, xs, depth=1, bname="b"):
     classes = {"a": NA, "b": NB if depth == 1 else NB2, "c": NC}
     key = {"a": "a", "b": bname, "c": "c"}  # the key of component b may itself end in 'init_args'
     nested_target = f"{bname}.inner.init_args.d" if depth == 1 else f"{bname}.inner.init_args.leaf.init_args.d"
-    parser = ArgumentParser(exit_on_error=False)
-    for name in decl:
-        parser.add_class_arguments(classes[name], key[name])
-    pairs = [(s, t) for s in names for t in names if s != t]
-    todo = [("plain", s, t) for n, (s, t) in enumerate(pairs) if bits[n]]
-    todo.insert(min(nested_pos, len(todo)), ("nested", src, "b"))
-    edges = []
-    for kind, s, t in todo:
-        would = edges + [(names.index(s), names.index(t))]
-        cyc = _cyclic(3, would)
-        try:
-            parser.link_arguments(f"{key[s]}.out", nested_target if kind == "nested" else f"{key[t]}.y_{s}", apply_on="instantiate")
-            raised = False
-        except ValueError:
-            raised = True
-        if raised != cyc:
-            return Fail("nested:cycle-verdict-at-link-creation", link=f"{kind}:{s}->{t}", raised=raised, cyclic=cyc, edges=edges)
-        if raised:
+    def _declare():
+        parser = ArgumentParser(exit_on_error=False)
+        for name in decl:
+            parser.add_class_arguments(classes[name], key[name])
+        pairs = [(s, t) for s in names for t in names if s != t]
+        todo = [("plain", s, t) for n, (s, t) in enumerate(pairs) if bits[n]]
+        todo.insert(min(nested_pos, len(todo)), ("nested", src, "b"))
+        edges = []
+        for kind, s, t in todo:
+            would = edges + [(names.index(s), names.index(t))]
+            cyc = _cyclic(3, would)
+            try:
+                parser.link_arguments(f"{key[s]}.out", nested_target if kind == "nested" else f"{key[t]}.y_{s}", apply_on="instantiate")
+                raised = False
+            except ValueError:
+                raised = True
+            if raised != cyc:
+                return Fail("nested:cycle-verdict-at-link-creation", link=f"{kind}:{s}->{t}", raised=raised, cyclic=cyc, edges=edges), None, None, None
+            if raised:
+                return True, None, None, None
+            edges = would
+        return None, parser, pairs, edges
+
+    with untraced():  # declaring parsers and links involves no symbolic value (the link bits are concrete by now)
+        verdict, parser, pairs, edges = _declare()
+    if verdict is not None:
+        if verdict is True:
             S.note("cycle-rejected")
-            return True
-        edges = would
+        return verdict
     S.note(f"links={len(edges)}")
     obj = {key[n]: {"x": xs[n]} for n in names}
     obj[bname]["inner"] = {"class_path": f"{__name__}.Inner"} if depth == 1 else {"class_path": f"{__name__}.Mid", "init_args": {"leaf": {"class_path": f"{__name__}.Leaf"}}}
